@@ -1712,6 +1712,7 @@ func (c *Chain) emitCorrupt(m *mctx, mu *mutator, hs HonestStep, pre common.Beac
 		return
 	}
 	res = RunTransition(sp, pre, nil, dec, b.Fork, m.validate, m.engine, m.engineAt, -1)
+	c.notePartial(&res)
 	rule := RuleClass(res.Err)
 	if res.Panicked {
 		rule = "panic"
@@ -1783,6 +1784,7 @@ func (c *Chain) wrongPreStateCase(r *hx.Rng, hs HonestStep) {
 		}
 		eng := hs.Engine
 		res := RunTransition(c.Spec, pre, nil, hs.Blk.Signed(), hs.Blk.Fork, validate, eng, -1, -1)
+		c.notePartial(&res)
 		rule := RuleClass(res.Err)
 		if res.Panicked {
 			rule = "panic"
@@ -1850,6 +1852,7 @@ func (c *Chain) randomBytesCase(r *hx.Rng, hs HonestStep, pre common.BeaconState
 				v = 1
 			}
 			res := RunTransition(sp, pre, nil, dec, fk, validate, hs.Engine, -1, -1)
+			c.notePartial(&res)
 			rule := RuleClass(res.Err)
 			if res.Panicked {
 				rule = "panic"
